@@ -157,9 +157,26 @@ where
 }
 
 fn max_position(min_shift: u8, depth: u8) -> io::Result<Position> {
-    assert!(min_shift > 0);
-    let n = (1 << (usize::from(min_shift) + 3 * usize::from(depth))) - 1;
-    Position::try_from(n).map_err(|e| io::Error::new(io::ErrorKind::InvalidInput, e))
+    use self::reference_sequence::bin::MAX_DEPTH;
+
+    if min_shift == 0 {
+        return Err(io::Error::new(
+            io::ErrorKind::InvalidInput,
+            "invalid min shift",
+        ));
+    } else if depth > MAX_DEPTH {
+        return Err(io::Error::new(io::ErrorKind::InvalidInput, "invalid depth"));
+    }
+
+    let n = u32::from(min_shift) + 3 * u32::from(depth);
+
+    1usize
+        .checked_shl(n)
+        .map(|m| m - 1)
+        .ok_or_else(|| io::Error::new(io::ErrorKind::InvalidInput, "invalid min shift"))
+        .and_then(|m| {
+            Position::try_from(m).map_err(|e| io::Error::new(io::ErrorKind::InvalidInput, e))
+        })
 }
 
 #[cfg(test)]
